@@ -50,7 +50,15 @@ def build_cases(rng, th, scratch, ndirs, per_dir):
                 content = content[:size]
                 fp = os.path.join(root, p)
                 os.makedirs(os.path.dirname(fp), exist_ok=True)
-                open(fp, "wb").write(content)
+                if rng.random() < 0.25:
+                    # a recognised path may be a symbolic link to the real image (a release directory): announced with the
+                    # TARGET's size, served with the target's bytes
+                    tgt = os.path.join(scratch, "releases_d%d" % d, "img%d.bin" % fid)
+                    os.makedirs(os.path.dirname(tgt), exist_ok=True)
+                    open(tgt, "wb").write(content)
+                    os.symlink(tgt, fp)
+                else:
+                    open(fp, "wb").write(content)
                 files[fid] = content
             for extra in ("readme.txt", "firmware/other.bin", "app9/update.spec"):
                 fp = os.path.join(root, extra)
